@@ -137,3 +137,65 @@ Print Assumptions C13_ring_contiguous.
 Print Assumptions C13_advance_empties.
 Print Assumptions C13_holds_partial.
 Print Assumptions C13_saturation_breaks_bound.
+
+(** ** tie to the source text (see Props/C11.v): the re-translated bodies of
+    request_resume, push_replay, replay_chunks_from and of the ReplayRing
+    methods are the model's steps / [covers] / [ring_push] (the fuelled
+    rendering of the eviction [while] is the model's [evict], and its fuel
+    suffices: the loop test is false on exit) / [replay_from]. *)
+From RepeV Require Import Model.Condvar Base.GenPrelude Gen.StreamGen Proofs.StreamGenAgree.
+
+Theorem C13_source_translation :
+  match gen_request_resume with
+  | Some f => forall s p fi n,
+      let '(s', r, nt) := f s p fi n in
+      (s', out_of_resume r, nt) = (step s (Resume p fi n), notifies s (Resume p fi n))
+  | None => True
+  end /\
+  agrees5 gen_push_replay (fun s off len lst body => (fst (step s (Push off len lst body)), false)) /\
+  match gen_replay_chunks_from with
+  | Some f => forall s n, let '(s', cs, nt) := f s n in (s', OChunks cs, nt) = (step s (Replay n), false)
+  | None => True
+  end /\
+  agrees2 gen_ring_covers (fun s o => covers (t_ring s) o) /\
+  agrees5 gen_ring_push (fun s off len lst body => ring_push s (mkChunk off len lst body)) /\
+  match gen_ring_push with
+  | Some f => forall s off len lst body,
+      let s' := f s off len lst body in
+      (t_cap s' <? t_held s') && (1 <? N.of_nat (length (t_ring s'))) = false
+  | None => True
+  end /\
+  agrees2 gen_ring_replay_from (fun s o => replay_from (t_ring s) o) /\
+  agrees1 gen_ring_clear (fun s => mkTc (t_window s) (t_sent s) (t_acked s) (t_file s) (t_cancelled s) [] 0
+                                        (t_cap s) (t_peer s) (t_pending s)) /\
+  agrees1 gen_ring_highest_end_offset
+          (fun s => match t_ring s with [] => None | r => Some (ck_end (last r (mkChunk 0 0 false []))) end).
+Proof. exact c13_source_translation. Qed.
+
+Check C13_source_translation :
+  match gen_request_resume with
+  | Some f => forall s p fi n,
+      let '(s', r, nt) := f s p fi n in
+      (s', out_of_resume r, nt) = (step s (Resume p fi n), notifies s (Resume p fi n))
+  | None => True
+  end /\
+  agrees5 gen_push_replay (fun s off len lst body => (fst (step s (Push off len lst body)), false)) /\
+  match gen_replay_chunks_from with
+  | Some f => forall s n, let '(s', cs, nt) := f s n in (s', OChunks cs, nt) = (step s (Replay n), false)
+  | None => True
+  end /\
+  agrees2 gen_ring_covers (fun s o => covers (t_ring s) o) /\
+  agrees5 gen_ring_push (fun s off len lst body => ring_push s (mkChunk off len lst body)) /\
+  match gen_ring_push with
+  | Some f => forall s off len lst body,
+      let s' := f s off len lst body in
+      (t_cap s' <? t_held s') && (1 <? N.of_nat (length (t_ring s'))) = false
+  | None => True
+  end /\
+  agrees2 gen_ring_replay_from (fun s o => replay_from (t_ring s) o) /\
+  agrees1 gen_ring_clear (fun s => mkTc (t_window s) (t_sent s) (t_acked s) (t_file s) (t_cancelled s) [] 0
+                                        (t_cap s) (t_peer s) (t_pending s)) /\
+  agrees1 gen_ring_highest_end_offset
+          (fun s => match t_ring s with [] => None | r => Some (ck_end (last r (mkChunk 0 0 false []))) end).
+
+Print Assumptions C13_source_translation.
